@@ -697,6 +697,9 @@ func runC08(r *run) {
 			{"{% extends \"blk.tpl\" %}{% block b %}C{{ block.Super }}{% endblock %}", "CB[CB]"},
 			{"{{ forloop }}{% for i in \"ab\" %}{{ forloop.Counter }}{% for j in \"c\" %}{{ forloop.Parentloop.Counter }}{% endfor %}{% endfor %}[{{ forloop }}]", "CF1122[CF]"},
 			{"{% for i in \"a\" %}{% endfor %}{% with q=1 %}{{ forloop }}{{ block }}{% endwith %}{% macro m() %}{{ forloop }}{{ block }}{% endmacro %}{{ m() }}", "CFCBCFCB"},
+			// a name set to nothing is bound all the same: it hides the context key and the global
+			{"{% set x = nothere %}[{{ x }}]{% set g = nv.name %}[{{ g }}]{% with y=nothere %}[{{ y }}]{% endwith %}[{{ y }}]", "[][][][GY]"},
+			{"{% set gm = gm.zz %}[{{ gm.k }}]{% set x = nothere.nope %}[{{ x }}]", "[][]"},
 			{"[{{ nv }}][{{ nv.name }}][{{ gm.k }}]{% if nv %}T{% else %}F{% endif %}{% if gm %}T{% else %}F{% endif %}", "[][][]FF"}, {"{% macro m(x) %}{{ x }}{{ y }}{% endmacro %}{{ m(\"MX\") }}{{ x }}", "MXGYCX"}} {
 			a := w.args(c[0], ctx)
 			a = append(a, "-", "-", hx(c[1]))
@@ -704,11 +707,70 @@ func runC08(r *run) {
 		}
 	}
 	_ = rg
+	gen0 := gen
+	gen = func(emit func(caseT)) {
+		gen0(emit)
+		// two struct types with the same name and different fields, resolved in turn
+		for i := 0; i < 6; i++ {
+			emit(caseT{"twotypes", []string{fmt.Sprint(i)}})
+		}
+	}
 	driveCases(r, gen, execC08)
 	r.finish(nil)
 }
 
+func c08RowA() any {
+	type row struct {
+		Kind  string
+		Count int
+	}
+	return row{"customer", 4}
+}
+
+func c08RowB() any {
+	type row struct {
+		Count int
+		Kind  string
+		Extra string
+	}
+	return row{4, "customer", "x"}
+}
+
+func execTwoTypes(r *run, c caseT) {
+	var i int
+	fmt.Sscanf(c.args[0], "%d", &i)
+	tpl, err := pongo2.FromString("{{ v.Kind }}/{{ v.Count }}/{{ v.Extra }}|{{ v[\"Kind\"] }}")
+	must(err)
+	order := []string{"ABA", "BAB", "AABB"}[i%3]
+	id := -1
+	for k, which := range order {
+		v, exp := c08RowA(), "customer/4/|customer"
+		if which == 'B' {
+			v, exp = c08RowB(), "customer/4/x|customer"
+		}
+		out, xerr, p := executeIn(tpl, pongo2.Context{"v": v})
+		o := out
+		if p != nil {
+			o = "panic:" + fmt.Sprint(p)
+		} else if xerr != nil {
+			o = "xerr"
+		}
+		if o != exp && id < 0 {
+			id = r.emit(c.op, c.args, "twotypes")
+			r.reject(id, "a field name resolved on one struct type gave the value of another type's field (two types with the same name)", map[string]any{"step": k + 1, "value": fmt.Sprintf("%+v", v), "observed": o, "expected": exp})
+		}
+	}
+	if id < 0 {
+		r.emit(c.op, c.args, "twotypes")
+	}
+	r.nontrivial("twotypes" + c.args[0])
+}
+
 func execC08(r *run, c caseT) {
+	if c.op == "twotypes" {
+		execTwoTypes(r, c)
+		return
+	}
 	if c.op == "shadow" {
 		w, src, ctx := worldFromArgs(c.args)
 		o, _ := w.render(src, false, ctx)
